@@ -100,10 +100,10 @@ CLAIMS = {
             "resolves to the other wing's castling move). The tie of the model of uci/moves.rs and uci/position.rs to the code rests on the correspondence run (both notations, conventional "
             "castling strings, almost-right spellings, stale castle files).", "DESIGN.md section 6 C05 and section 9", ""),
     "C07": ("proof", "Coq proof parse => validate for every string in both arithmetic modes + differential in both builds",
-            "PARTIAL proof. Proved for every string and both modes: an accepted string yields a position that passed validate with the key "
+            "Proof on the model (spellings outside the two proved ones by the run). Proved for every string and both modes: an accepted string yields a position that passed validate with the key "
             "recomputed from scratch, what validate guarantees (spelled out), and consistent bitboards (us|them = union of the piece boards, by the "
             "XOR-parity invariant of the board loop). Completeness in the form the model can carry: the FEN the engine prints for a valid position (any rights, Chess960 files) is accepted and yields that "
-            "position (C07_printed_fen_is_accepted, from C06), in particular of every position of D and of every position reached from D by generated moves while the clocks fit an i32 (C07_fen_of_every_reached_position_is_accepted). Acceptance of every canonical X-FEN of D written by an independent printer and 'a well-formed string denotes what it spells' rest on the "
+            "position (C07_printed_fen_is_accepted, from C06), in particular of every position of D and of every position reached from D by generated moves while the clocks fit an i32 (C07_fen_of_every_reached_position_is_accepted). The other spelling of the castling field is proved too: every held right written as the file letter of its rook (Shredder-FEN), or any mix of file letters and the printer's letters, parses to the very same position in either mode (C07_file_letter_spelling_denotes_the_same_position, C07_any_mix_of_spellings_denotes_the_same_position). Other letter orders, omitted counters and the agreement of the model's printer with an independent X-FEN printer rest on the "
             "correspondence run (both builds).", "DESIGN.md section 6 C07", ""),
     "C10": ("proof", "Coq proof: vm_compute sweep over regenerated magics lifted to all occupancies; exhaustive differential vs geometry",
             "Full proof about the model: magic lookup (table generated as in build.rs, indexed as in magic.rs, constants regenerated "
